@@ -73,6 +73,19 @@ def check_series(case, ctx):
     planes = tuple(potential.exit_planes)
     nslices = potential.num_slices
     thick = np.cumsum(potential.slice_thickness)
+    # which planes exist is documented: a tuple lists the slice indices after which a
+    # measurement is made; an integer k asks for a measurement every k slices; the
+    # property adds that the last exit plane is the full simulation
+    ep = pspec.get("exit_planes")
+    if isinstance(ep, list):
+        if tuple(planes) != tuple(ep):
+            raise Violation(f"explicit exit_planes {ep} became {planes}", ("planes_selected", "tuple"))
+    elif isinstance(ep, int) and ep < nslices:
+        want = list(range(ep - 1, nslices, ep))
+        if any(w not in planes for w in want):
+            raise Violation(f"exit_planes={ep} with {nslices} slices gives planes {planes}, missing some of {want}", ("planes_selected", "int"))
+        if planes[-1] != nslices - 1:
+            raise Violation(f"exit_planes={ep}: last exit plane {planes[-1]} is not the last slice {nslices - 1}", ("planes_selected", "last"))
     interior = [p for p in planes if 0 <= p < nslices - 1]
     ctx.label("entrance", planes[0] == -1)
     ctx.nontrivial(len(planes) >= 2 and len(interior) >= 1)
